@@ -448,6 +448,16 @@ func (p *proxyConn) writeResponse(res *http.Response) error {
 		}
 	}
 
+	// A body decompressed by the transport has lost its Content-Length, and net/http does not
+	// fall back to closing the connection for such responses: delimit it explicitly.
+	if res.Uncompressed && res.ContentLength == -1 && len(res.TransferEncoding) == 0 && !isHeaderOnlySpec(res) {
+		if res.ProtoAtLeast(1, 1) {
+			res.TransferEncoding = []string{"chunked"}
+		} else {
+			res.Close = true
+		}
+	}
+
 	if res.Close {
 		res.Header.Add("Connection", "close")
 	}
